@@ -17,7 +17,7 @@ LEVEL = 'model_checking'
 TRIPLES = ('x86_64-linux-gnu', 'aarch64-linux-gnu', 'riscv64-linux-gnu')
 
 INPUTS = ['a.c', 'b.h', 'c.i', 'd.qbe', 'e.s', 'f.S', 'g.o']
-ODD_INPUTS = ['h', 'x.y.c', 'dir/k.c', '-']
+ODD_INPUTS = ['h', 'x.y.c', 'dir/k.c', '-', './p', 'v1.2/prog', '../r.d/q', 'a.b/c.d/e.s', '.hidden.c', 'dir.x/']
 MODES = [['-c'], ['-S'], ['-E'], ['-emit-qbe']]
 OUT = [['-o', 'out'], ['-oout'], ['-o', '-']]
 PPOPTS = [['-D', 'X'], ['-DX=1'], ['-U', 'X'], ['-UX'], ['-I', 'd'], ['-Id'], ['-include', 'h'], ['-isystem', 'd'],
@@ -64,6 +64,14 @@ def cmdlines(quick):
         if k == 4:
             tuples += [t for t in itertools.product(['a.c', 'e.s', 'g.o'], repeat=4)]
     tuples += [tuple(INPUTS[(i + j) % 7] for j in range(6)) for i in range(7)] + [tuple([x] * 6) for x in INPUTS]
+    # output naming: every mode x every forced language x every odd path shape (no -o, and with -o)
+    for m in modes:
+        for lang in ([], ['-x', 'c'], ['-x', 'assembler'], ['-x', 'cpp-output'], ['-x', 'qbe']):
+            for pth in ODD_INPUTS + ['a.c', 'dir/sub/f.S', 'noext', 'd.ir/noext', './x.c', '../y.i', 'a/b.c/c']:
+                for o in ([], ['-o', 'out']):
+                    f = emit([m, lang, [pth], o])
+                    if f:
+                        out.append(f)
     optsamples = [['-DX=1'], ['-Wa,a,b'], ['-lm'], ['-Wl,a,b'], ['-x', 'c'], ['-nostdlib']]
     for m in modes:
         for o in outs:
